@@ -4,7 +4,7 @@ import gen_common
 import par_common
 import probes
 
-DEP_FILES = ["PrologueModel.v", "PrologueProofs.v"]
+DEP_FILES = ["PrologueModel.v", "PrologueProofs.v", "ScopeModel.v", "ScopeProofs.v"]
 PID = "C15"
 
 
